@@ -25,6 +25,8 @@ type c26Step struct {
 	// DuringSleep: messages injected while the Sleep call of this step is blocked (after DelayMs).
 	DuringSleep []c26Msg `json:"during_sleep,omitempty"`
 	DelayMs     int      `json:"delay_ms,omitempty"`
+	// Refuse: the broker refuses this Subscribe (SUBACK 0x80); the call must report it.
+	Refuse bool `json:"refuse,omitempty"`
 }
 
 type c26Msg struct {
@@ -45,6 +47,7 @@ func genC26(t *rapid.T) c26Case {
 	c := c26Case{Auth: rapid.Bool().Draw(t, "auth"), Will: rapid.Bool().Draw(t, "will")}
 	registered := map[string]bool{}
 	var subs []string
+	live := map[string]bool{}
 	tag := 0
 	msg := func() c26Msg {
 		tag++
@@ -87,7 +90,13 @@ func genC26(t *rapid.T) c26Case {
 			if rapid.IntRange(0, 4).Draw(t, "predefsub") == 0 {
 				c.Steps = append(c.Steps, c26Step{Call: &clsim.Call{API: "SubscribePredefined", TopicID: uint16(rapid.IntRange(1, 2).Draw(t, "spid")), QoS: qos}})
 			} else {
-				f := rapid.SampledFrom([]string{"t/a", "t/b", "w/#", "w/+", "ab", "#"}).Draw(t, "filter")
+				f := rapid.SampledFrom([]string{"t/a", "t/b", "w/#", "w/+", "ab", "#", "w/x", "w/y"}).Draw(t, "filter")
+				if !live[f] && rapid.IntRange(0, 4).Draw(t, "refused") == 0 {
+					// the broker refuses this subscription; nothing else may change because of it
+					c.Steps = append(c.Steps, c26Step{Call: &clsim.Call{API: "Subscribe", Topic: f, QoS: qos}, Refuse: true})
+					continue
+				}
+				live[f] = true
 				subs = append(subs, f)
 				if !strings.ContainsAny(f, "+#") && len(f) != 2 {
 					registered[f] = true
@@ -98,7 +107,9 @@ func genC26(t *rapid.T) c26Case {
 			if len(subs) == 0 {
 				continue
 			}
-			c.Steps = append(c.Steps, c26Step{Call: &clsim.Call{API: "Unsubscribe", Topic: rapid.SampledFrom(subs).Draw(t, "unsub")}})
+			u := rapid.SampledFrom(subs).Draw(t, "unsub")
+			delete(live, u)
+			c.Steps = append(c.Steps, c26Step{Call: &clsim.Call{API: "Unsubscribe", Topic: u}})
 		case "publish":
 			qos := uint8(rapid.IntRange(0, 3).Draw(t, "pqos"))
 			tag++
@@ -214,6 +225,10 @@ func runC26(c c26Case) (r vf.Result) {
 		}
 		cl := *st.Call
 		kinds[cl.API] = true
+		if st.Refuse {
+			s.Broker.Refuse = map[string]bool{cl.Topic: true}
+			r.Label("refused-subscription")
+		}
 		cs := s.CL.Go(cl)
 		if cl.API == "Sleep" {
 			sleeps++
@@ -224,6 +239,15 @@ func runC26(c c26Case) (r vf.Result) {
 		if !s.WaitCall(cs, max) {
 			r.Fail("call-never-returns/"+cl.API, "%v has not returned after %v\n%s", cl, max, s.Dump(40))
 			return
+		}
+		if st.Refuse {
+			s.Broker.Refuse = nil
+			if cs.Err == nil {
+				r.Fail("refused-subscribe-returns-nil", "%v returned nil although the broker refused the subscription (SUBACK 0x80)\n%s", cl, s.Dump(40))
+				return
+			}
+			s.Advance(20 * time.Millisecond)
+			continue
 		}
 		if cs.Err != nil {
 			kind := "call-fails/" + cl.API
@@ -356,10 +380,10 @@ func lookup(m map[string]map[uint16]string, client string, id uint16) (string, b
 func TestC26(t *testing.T) {
 	vf.Check(t, vf.Prop[c26Case]{
 		ID: "C26", Name: "interop", Bubble: true,
-		Rule: "real client and real gateway session over a lossless in-memory link with a conforming model broker (which also plays other clients); auth on/off, will on/off; scripts of 3-25 steps: Register, Subscribe (plain, wildcard, short, predefined; QoS 0-2), Publish / PublishPredefined (QoS -1..2, short / predefined / registered topics, retain), Unsubscribe, Ping, Sleep (0.5-4 s; a blocking call during which broker publishes are injected), further Sleeps from the awake state, Connect back to active, Disconnect; broker injections of single messages and bursts of 2-5 back-to-back messages on known, predefined, short and not-yet-registered topics under a wildcard (the same new topic several times in a burst, and different ones). Non-trivial = a script with a sleep cycle, a burst on an unregistered topic, or >= 3 different API kinds; distinct by case.",
+		Rule: "real client and real gateway session over a lossless in-memory link with a conforming model broker (which also plays other clients); auth on/off, will on/off; scripts of 3-25 steps: Register, Subscribe (plain, wildcard, short, predefined; QoS 0-2; a fifth of the subscriptions to filters not subscribed yet are refused by the broker), Publish / PublishPredefined (QoS -1..2, short / predefined / registered topics, retain), Unsubscribe, Ping, Sleep (0.5-4 s; a blocking call during which broker publishes are injected), further Sleeps from the awake state, Connect back to active, Disconnect; broker injections of single messages and bursts of 2-5 back-to-back messages on known, predefined, short and not-yet-registered topics under a wildcard (the same new topic several times in a burst, and different ones). Non-trivial = a script with a sleep cycle, a burst on an unregistered topic, or >= 3 different API kinds; distinct by case.",
 		Assumptions: []string{"Publish to a plain name is preceded by Register/Subscribe of that name (the API documents the precondition); after Sleep returns the script continues with Sleep, Connect or nothing (the client is 'awake', not active)",
 			"sleeps stay below RetryDelay so that the C11 known finding (retransmission copies in the wake-up flush) does not interfere",
-			"oracle: every call returns nil; subscriptions and publishes are at the broker model exactly as requested; every injected message that matches a live subscription runs a handler exactly once, with the broker's topic"},
+			"oracle: every call returns nil (a Subscribe the broker refuses returns an error and changes nothing else); subscriptions and publishes are at the broker model exactly as requested; every injected message that matches a live subscription runs a handler exactly once, with the broker's topic"},
 		Gen: genC26,
 		Run: runC26,
 	})
